@@ -40,7 +40,7 @@ func SafeCmdExecution(executable string, args []string, timeout time.Duration) (
 	if err != nil {
 		var exitError *exec.ExitError
 		if errors.As(err, &exitError) {
-			ui.Warning("Command failed to execute: %s: %s", executable, string(exitError.Stderr))
+			ui.Warning("Command failed to execute: %s: %s", executable, shortenForLog(string(exitError.Stderr)))
 		} else {
 			ui.Warning("Command failed to execute: %s: %v", executable, err)
 		}
@@ -51,4 +51,17 @@ func SafeCmdExecution(executable string, args []string, timeout time.Duration) (
 	strout = strings.Trim(strout, "\n")
 
 	return strout, nil
+}
+
+// maxLoggedCmdOutput limits how much of a failing command's stderr is written to the log.
+const maxLoggedCmdOutput = 2048
+
+// shortenForLog keeps the beginning of a command's (error) output. os/exec hands over up to 64 KiB of stderr;
+// formatting tens of thousands of lines for the log takes many seconds, during which the caller - a sensor
+// monitor or control loop - and every other goroutine that logs are blocked.
+func shortenForLog(text string) string {
+	if len(text) <= maxLoggedCmdOutput {
+		return text
+	}
+	return fmt.Sprintf("%s... (%d more bytes)", text[:maxLoggedCmdOutput], len(text)-maxLoggedCmdOutput)
 }
